@@ -83,7 +83,7 @@ package diam
 //@
 //@ func (*AVP).DecodeFromBytes(a, data, application, dictionary) (err)
 //@   property C01 C02 C03 C04 C06
-//@   requires a != nil && dictionary != nil
+//@   requires a != nil && dictionary != nil && pwf(dictionary)
 //@   modifies a.*
 //@   ensures short: len(data) < 8 ==> err != nil
 //@   ensures [C02] hdr: err == nil ==> a.Code == be32(data, 0) && a.Flags == data[4] && a.Length == int(be24(data, 5))
@@ -97,7 +97,7 @@ package diam
 //@
 //@ func DecodeAVP(data, application, dictionary) (a, err)
 //@   property C01 C02 C03 C04 C06
-//@   requires dictionary != nil
+//@   requires dictionary != nil && pwf(dictionary)
 //@   modifies
 //@   ensures nonnil: a != nil && fresh(a)
 //@   ensures short: len(data) < 8 ==> err != nil
@@ -113,7 +113,7 @@ package diam
 //@ # ======================= group.go ========================================
 //@ func DecodeGrouped(data, application, dictionary) (g, err)
 //@   property C01 C03 C04 C06
-//@   requires dictionary != nil
+//@   requires dictionary != nil && pwf(dictionary)
 //@   modifies
 //@   ensures nonnil: err == nil ==> g != nil && fresh(g)
 //@   ensures [C04] framing: err == nil ==> len(g.AVP) == framecount(data, pad4s(len(data)))
@@ -138,7 +138,7 @@ package diam
 //@ # ======================= message.go ======================================
 //@ func (*Message).decodeAVPs(m, b) (err)
 //@   property C01 C03 C04 C06
-//@   requires m != nil && m.Header != nil
+//@   requires m != nil && m.Header != nil && (m.dictionary != nil ==> pwf(m.dictionary))
 //@   modifies m.AVP
 //@   ensures [C04] framing: err == nil ==> len(m.AVP) == len(old(m.AVP)) + framecount(b, pad4s(len(b)))
 //@   loop 0
@@ -150,9 +150,9 @@ package diam
 //@ func (*Message).Dictionary(m) (d)
 //@   property C01 C03
 //@   pure
-//@   requires m != nil
-//@   assume default_dictionary_initialised: dict.Default != nil
-//@   ensures nonnil: d != nil
+//@   requires m != nil && (m.dictionary != nil ==> pwf(m.dictionary))
+//@   assume default_dictionary_initialised: dict.Default != nil && pwf(dict.Default)
+//@   ensures nonnil: d != nil && pwf(d)
 //@ end
 //@
 //@ # ======================= serialisation (C02) ============================
@@ -236,7 +236,7 @@ package diam
 //@
 //@ func (*Message).NewAVP(m, code, flags, vendor, data) (a, err)
 //@   property C02 C16
-//@   requires m != nil && m.Header != nil && data != nil && valid(data)
+//@   requires m != nil && m.Header != nil && data != nil && valid(data) && (m.dictionary != nil ==> pwf(m.dictionary))
 //@   requires nongroup: !typeis(data, *GroupedAVP)
 //@   requires codetype: typeis(code, int) || typeis(code, uint32) || typeis(code, string)
 //@   modifies m.AVP, m.Header.MessageLength
@@ -253,7 +253,7 @@ package diam
 //@ # C16: an answer mirrors its request
 //@ func (*Message).Answer(m, resultCode) (nm)
 //@   property C16
-//@   requires m != nil && m.Header != nil
+//@   requires m != nil && m.Header != nil && (m.dictionary != nil ==> pwf(m.dictionary))
 //@   modifies
 //@   ensures shape: nm != nil && fresh(nm) && nm.Header != nil && fresh(nm.Header)
 //@   ensures [C16] command: nm.Header.CommandCode == m.Header.CommandCode && nm.Header.ApplicationID == m.Header.ApplicationID
@@ -304,8 +304,9 @@ package diam
 //@ func (*Message).readHeader(m, r, buf) (cmd, stream, err)
 //@   property C03 C05
 //@   requires m != nil && r != nil && buf != nil && cap(bufslice(buf)) >= 20 && !implements(r, MultistreamReader)
+//@   requires m.dictionary != nil ==> pwf(m.dictionary)
 //@   requires stream_wf: 0 <= pos(r) && pos(r) <= len(stream(r))
-//@   assume default_dictionary_initialised: dict.Default != nil
+//@   assume default_dictionary_initialised: dict.Default != nil && pwf(dict.Default)
 //@   modifies m.Header, pos(r), bufslice(buf)[0:20]
 //@   ensures [C05] consumed: err == nil ==> pos(r) == old(pos(r)) + 20 && m.Header != nil && cmd != nil && hdr_wire(m.Header, stream(r)[old(pos(r)):])
 //@   ensures [C05] eof: old(pos(r)) == len(stream(r)) ==> err == io.EOF
@@ -319,9 +320,10 @@ package diam
 //@ func (*Message).readBody(m, r, buf, cmd, stream) (err)
 //@   property C03 C05 C06
 //@   requires m != nil && m.Header != nil && r != nil && buf != nil && cmd != nil && !implements(r, MultistreamReader)
+//@   requires m.dictionary != nil ==> pwf(m.dictionary)
 //@   requires pool_buffer: cap(bufslice(buf)) >= 20
 //@   requires stream_wf: 0 <= pos(r) && pos(r) <= len(stream(r))
-//@   assume default_dictionary_initialised: dict.Default != nil
+//@   assume default_dictionary_initialised: dict.Default != nil && pwf(dict.Default)
 //@   assume buffer_length_setting: MessageBufferLength >= 20 && MessageBufferLength < 1<<30
 //@   modifies m.AVP, pos(r), bufslice(buf)[0:cap(bufslice(buf))]
 //@   ensures [C05] reject_short_length: m.Header.MessageLength < 20 ==> err != nil && pos(r) == old(pos(r))
@@ -334,7 +336,7 @@ package diam
 //@
 //@ func ReadMessage(reader, dictionary) (m, err)
 //@   property C03 C05 C06
-//@   requires reader != nil && !implements(reader, MultistreamReader)
+//@   requires reader != nil && !implements(reader, MultistreamReader) && (dictionary != nil ==> pwf(dictionary))
 //@   requires stream_wf: 0 <= pos(reader) && pos(reader) <= len(stream(reader))
 //@   modifies pos(reader), bufslice(any), bytes(any)
 //@   ensures [C05] consumed: err == nil ==> m != nil && m.Header != nil && pos(reader) == old(pos(reader)) + int(be24(stream(reader), old(pos(reader)) + 1))
